@@ -2,8 +2,9 @@
 //! public lexer / parser API (the call sequence of `Program::load_source`) and
 //! reports the syntax tree as a generic JSON tree, or the syntax error.
 //!
-//! input : `{"k":"parse","src":"..."}`
-//! output: `{"tokens":[[start,end],...], "eof":[start,end], "ast": NODE}`
+//! input : `{"k":"parse","src":"...","full":bool}`
+//! output: `{"tokens":[[start,end],...], "eof":[start,end], "ast": NODE}` (full) or
+//!         `{"tokens":[...], "eof":[...], "tree": TEXT}` (default; TEXT = `canon(NODE)`, see below)
 //!      or `{"tokens":[...], "eof":[..]|null, "err":{"stage":"lex"|"parse","start":..,"end":..,
 //!           "kind":..,"instead":..,"expected":[..]}}`
 //!
@@ -11,6 +12,9 @@
 //! Every `SpanId` the public `ast` types carry is resolved through
 //! `SpanManager::get_span`; structures that carry no span of their own
 //! (bind, param, arg, member, comprehension clause) have `"s": null`.
+//! `canon(NODE)` = `_` for kind "none", otherwise kind, `:` + JSON string of v when v is not
+//! empty, `@start-end` when the node has a span, `(` children separated by `,` `)` when it
+//! has children.
 //! `tokens` are the spans of the tokens of the input without the end-of-file
 //! token, `eof` is the span of the end-of-file token.
 
@@ -313,6 +317,35 @@ impl Cx<'_> {
     }
 }
 
+fn canon(n: &J, out: &mut String) {
+    let kind = n["n"].as_str().unwrap_or("");
+    if kind == "none" {
+        out.push('_');
+        return;
+    }
+    out.push_str(kind);
+    let v = n["v"].as_str().unwrap_or("");
+    if !v.is_empty() {
+        out.push(':');
+        out.push_str(&serde_json::to_string(v).unwrap());
+    }
+    if let (Some(s), Some(e)) = (n["s"].as_u64(), n["e"].as_u64()) {
+        out.push_str(&format!("@{s}-{e}"));
+    }
+    if let Some(c) = n["c"].as_array() {
+        if !c.is_empty() {
+            out.push('(');
+            for (i, ch) in c.iter().enumerate() {
+                if i > 0 {
+                    out.push(',');
+                }
+                canon(ch, out);
+            }
+            out.push(')');
+        }
+    }
+}
+
 fn lex_error_span(e: &LexError) -> (SpanId, String) {
     let name = format!("{e:?}");
     let name = name
@@ -416,7 +449,14 @@ pub fn run(case: &J) -> J {
     match result {
         Ok(root) => {
             let cx = Cx { mgr: &span_mgr };
-            json!({"tokens": toks, "eof": eof, "ast": cx.expr(&root)})
+            let ast = cx.expr(&root);
+            if case.get("full").and_then(|f| f.as_bool()).unwrap_or(false) {
+                json!({"tokens": toks, "eof": eof, "ast": ast})
+            } else {
+                let mut text = String::new();
+                canon(&ast, &mut text);
+                json!({"tokens": toks, "eof": eof, "tree": text})
+            }
         }
         Err(ParseError::Expected {
             span,
